@@ -25,6 +25,9 @@
 (*                         planned set is empty                               *)
 (*   TieBreakByOrder       of two equally loaded shards scraping the same target  *)
 (*                         in the same state, the later one drops its copy       *)
+(*   TooBigSkipped         relief passes over a too big target (its size is not part of   *)
+(*                         what the relief can shed) instead of giving the shard up, so   *)
+(*                         that what is moved does not depend on the order of the targets *)
 (*   ZeroNeedsPlace        an unplaced target whose estimate is 0 / 0 counts as needed  *)
 (*                         space (1), so that a shard is requested for it                *)
 (*   RevertOrphanTransfer  an in_transfer copy (scraped MinWait times) that no other   *)
@@ -36,7 +39,7 @@
 (***************************************************************************)
 EXTENDS Integers, Sequences, FiniteSets, TLC, SequencesExt
 
-CONSTANTS ZeroNeedsPlace, MinWait, HeadReliefChecksProc, TooBigUsesTotal, EarlyByShardCount, TailNeedsEmpty, TooBigFirst, TieBreakByOrder, RevertOrphanTransfer,
+CONSTANTS TooBigSkipped, ZeroNeedsPlace, MinWait, HeadReliefChecksProc, TooBigUsesTotal, EarlyByShardCount, TailNeedsEmpty, TooBigFirst, TieBreakByOrder, RevertOrphanTransfer,
           InputSet            \* set of input records explored by this run
 
 VARIABLES in,        \* the input record (constant during a behaviour)
@@ -213,7 +216,10 @@ AllevP ==
                    LET e == pl[cur][t]
                        dst == {o \in Changeable \ {cur} : HeadRoom(ld[o], e) /\ ProcRoom(ld[o], e)}
                    IN IF ProcTooBig(e)
-                        THEN NextShardP /\ UNCHANGED <<pc, pl, ld, need>>   \* return 0
+                        THEN IF TooBigSkipped
+                               THEN \* it stays whatever else is moved: not part of what this relief can shed
+                                    tot' = tot - e.total /\ vis' = vis \cup {t} /\ UNCHANGED <<pc, cur, pl, ld, need>>
+                               ELSE NextShardP /\ UNCHANGED <<pc, pl, ld, need>>   \* return 0
                       ELSE IF dst = {}
                         THEN vis' = vis \cup {t} /\ UNCHANGED <<pc, cur, tot, pl, ld, need>>
                       ELSE /\ Transfer(cur, MinOf(dst), t)
@@ -255,7 +261,9 @@ AllevH ==
                                  /\ ld[o].head + e.series < MaxHead
                                  /\ (HeadReliefChecksProc => ProcRoom(ld[o], e))}
                    IN IF HeadTooBig(e)
-                        THEN NextShardP /\ UNCHANGED <<pc, pl, ld, need, sps>>   \* return 0
+                        THEN IF TooBigSkipped
+                               THEN tot' = tot - e.series /\ vis' = vis \cup {t} /\ UNCHANGED <<pc, cur, pl, ld, need, sps>>
+                               ELSE NextShardP /\ UNCHANGED <<pc, pl, ld, need, sps>>   \* return 0
                       ELSE IF dst = {}
                         THEN vis' = vis \cup {t} /\ UNCHANGED <<pc, cur, tot, pl, ld, need, sps>>
                       ELSE /\ Transfer(cur, MinOf(dst), t)
